@@ -435,9 +435,25 @@ def run(ctx: Ctx) -> None:
                     # label policy ALLOW_ANY with a confusing but accurate detector: TPs whose estimate label differs
                     # from the ground truth's label (per-label rates mix the two label sets)
                     task = "detection"
-                    base = gen_scenario(r, task=task, n_frames=r.randint(2, 4), fp_share=0.0, overrides={"matching_label_policy": "ALLOW_ANY"}, det=dict(p_det=1.0, pos_sig=0.02, yaw_sig=0.05, p_conf=0.9, p_unknown=0.0, force_name="car"), categories=["car", "truck", "vehicle.bus", "bus"], target=["car", "truck", "bus"], merge=False)
+                    base = gen_scenario(r, task=task, n_frames=r.randint(2, 4), fp_share=0.0, overrides={"matching_label_policy": "ALLOW_ANY"}, det=dict(p_det=1.0, pos_sig=0.02, yaw_sig=0.05, p_conf=0.9, p_unknown=0.0, force_name="car"), categories=["car", "truck", "vehicle.bus", "bus"], target=["car", "truck", "bus"], merge=False, dt_us=100_000)
                     for pf in base.passfail:
                         pf["matching_threshold_list"] = [5.0 for _ in pf["target_labels"]]
+                    if idx % 8 == 1:
+                        # the plainest instance, built by hand: one car, two trucks and a bus, every one detected in place
+                        # and called "car" (more TPs carry the estimate label `car` than there are car ground truths)
+                        layout = [("car", "car", (6.0, 2.0)), ("truck", "truck", (12.0, -3.0)), ("truck", "truck", (18.0, 4.0)), ("bus", "bus", (-9.0, 6.0))]
+                        for fk, fr_ in enumerate(base.frames):
+                            fr_.gts = [dict(key=f"hand{j}", category=cat, canon=canon, box=(x + 0.5 * fk, y, 0.0, 0.1, 2.0, 4.5, 1.6), npts=40, vis="full", attrs=[]) for j, (cat, canon, (x, y)) in enumerate(layout)]
+                            fr_.ests = [dict(key=f"he{fk}_{j}", name="car", box=(x + 0.5 * fk + 0.05, y, 0.0, 0.1, 2.0, 4.5, 1.6), score=round(0.9 - 0.1 * j, 3), uuid=f"ht{j}") for j, (_, _, (x, y)) in enumerate(layout)]
+                        for c_ in base.critical:
+                            for k_ in ("max_x_position_list", "max_y_position_list", "max_distance_list", "min_distance_list", "min_point_numbers", "confidence_threshold_list", "target_uuids", "ignore_attributes"):
+                                c_.pop(k_, None)
+                            c_["max_x_position_list"] = [100.0 for _ in c_["target_labels"]]
+                            c_["max_y_position_list"] = [100.0 for _ in c_["target_labels"]]
+                        for k_ in ("target_uuids", "ignore_attributes", "confidence_threshold", "max_matchable_radii"):
+                            base.cfg.pop(k_, None)
+                        base.cfg["min_point_numbers"] = [0 for _ in base.cfg["target_labels"]]
+                        ctx.count("C19.hand_built_confusion_tables")
                 if idx % 3 == 0 and task == "detection":
                     # FP-labelled ground truth matched inside its pass/fail threshold while `false_positive` is not an
                     # evaluator target label: the paired row carries a label outside the analyzer's label axes
@@ -449,6 +465,8 @@ def run(ctx: Ctx) -> None:
                         if "false_positive" not in pf["target_labels"]:
                             pf["target_labels"] = list(pf["target_labels"]) + ["false_positive"]
                             pf["matching_threshold_list"] = list(pf["matching_threshold_list"]) + [50.0]
+                            if "confidence_threshold_list" in pf:
+                                pf["confidence_threshold_list"] = list(pf["confidence_threshold_list"]) + [0.0]
                         else:
                             pf["matching_threshold_list"] = [50.0 if l == "false_positive" else t for l, t in zip(pf["target_labels"], pf["matching_threshold_list"])]
                 an = None
